@@ -5,6 +5,7 @@ import WfProofs.VersionChain
 import WfProofs.VersionIdem
 import WfProofs.VersionTag
 import WfProofs.VersionNewline
+import WfProofs.VersionPreserve
 /-!
 # C34 — release tooling converts and classifies versions consistently
 
@@ -477,6 +478,38 @@ theorem C34_conversions_idempotent (s t : List Char) :
 example : semverToPep ['1', '.', '2', '-', 'r', 'c', '.', '3'] = .ok ['1', '.', '2', 'r', 'c', '3'] ∧
     semverToPep ['1', '.', '2', 'r', 'c', '3'] = .ok ['1', '.', '2', 'r', 'c', '3'] := by decide
 example : semverToPep [Char.ofNat 0x661, '-', 'b', '.', Char.ofNat 0x662] = .ok [Char.ofNat 0x661, 'b', Char.ofNat 0x662] := by decide
+
+/-- **`semver_to_pep440` never changes the version a string denotes.**  For *every* string
+`s` that `packaging` reads as a release / pre-release version `v` -- any spelling: semver
+or PEP 440 form, leading zeros, upper case, `alpha`/`c`/`preview`, surrounding white
+space, a final newline -- `semver_to_pep440 s` either raises its label error or returns
+a string that `packaging` reads as the same `v`, whose conversion back is the canonical
+semver of `v` and whose normal form is the canonical PEP 440 of `v`.  (Inversion of the
+scanner, of the regex match and of the PEP 440 parser: accepted strings are ASCII, so the
+Unicode digits `\d` admits cannot occur.) -/
+theorem C34_semver_to_pep_preserves_version (s : List Char) (v : Ver) (hs : parsePep s = some v) :
+    semverToPep s = .labelError ∨
+    ∃ t, semverToPep s = .ok t ∧ parsePep t = some v ∧
+      pepToSemver t = .ok (showSemver v) ∧ normalize t = .ok (showPep v) := by
+  cases h : semverToPep s with
+  | labelError => exact Or.inl rfl
+  | outside =>
+    exfalso
+    unfold semverToPep at h
+    split at h
+    · cases h
+    · split at h <;> cases h
+  | ok t =>
+    right
+    have hp := semverToPep_preserves s t v hs h
+    exact ⟨t, rfl, hp, by simp [pepToSemver, hp], by simp [normalize, hp]⟩
+
+/-- the label error on a string packaging accepts, and a converted upper-case-free spelling -/
+example : parsePep ['1', '.', '0', '-', 'R', 'C', '.', '1'] = some ⟨[1, 0], some (.rc, 1)⟩ ∧
+    semverToPep ['1', '.', '0', '-', 'R', 'C', '.', '1'] = .labelError := by decide
+example : semverToPep ['0', '1', '.', '0', '-', 'r', 'c', '.', '0', '1', '\n'] = .ok ['0', '1', '.', '0', 'r', 'c', '0', '1'] ∧
+    parsePep ['0', '1', '.', '0', 'r', 'c', '0', '1'] = some ⟨[1, 0], some (.rc, 1)⟩ := by decide
+example : semverToPep [' ', '1', '.', '0', '-', 'r', 'c', '.', '1'] = .ok [' ', '1', '.', '0', '-', 'r', 'c', '.', '1'] := by decide
 
 /-- **semver → PEP 440 → semver with a final newline** (a version read from a file or a
 command's output): `$` of the semver regex matches before it, so a pre-release is
